@@ -221,6 +221,22 @@ def run_layout_case(ctx, conv, R, rng, size, fields, used, values=None, tag="lay
                 arr.frombytes(bytes(vals[name]))
                 given[name] = arr if rng.random() < 0.6 else memoryview(bytearray(vals[name])).cast(code)
                 ctx.count("blob_values_with_wide_items")
+    if rng.random() < 0.15:
+        # byte blobs as ctypes character buffers (NUL bytes inside are bytes like any other), one-bit fields as members of an
+        # IntEnum (objects that also have a .value)
+        import ctypes
+        import enum
+
+        class Flag(enum.IntEnum):
+            OFF = 0
+            ON = 1
+
+        for name, f in zip(names, fields):
+            if f[0] == "b" and f[2]:
+                given[name] = ctypes.create_string_buffer(bytes(vals[name]), len(vals[name]))
+                ctx.count("blob_values_as_character_buffers")
+            elif f[0] == "m" and f[3] == 1:
+                given[name] = Flag(vals[name])
     # ... in any Mapping (the notation's own type annotation), not only a dict
     as_mapping = rng.choice([dict, dict, dict, collections.UserDict, collections.OrderedDict, lambda d: collections.ChainMap(d)])
     data1 = {k: given[k] for k in order}
@@ -232,8 +248,16 @@ def run_layout_case(ctx, conv, R, rng, size, fields, used, values=None, tag="lay
             stray[head] = {tail: vals[names[0]] if not isinstance(vals[names[0]], bytearray) else 1, names[0]: 1}
         data1.update(stray)
         ctx.count("encodes_with_entries_outside_the_layout")
+    layout1 = {k: check[k] for k in order}
+    if len(data1) > len(order) and rng.random() < 0.5:
+        # the layout in a dictionary that makes up entries for unknown names (a defaultdict filled row by row): names that are
+        # not fields stay what they are -- nothing is encoded for them, nothing is added to the layout
+        layout1 = collections.defaultdict(list, layout1)
+        ctx.count("layouts_with_default_factory")
     try:
-        conv.encode_dict(as_mapping(data1), {k: check[k] for k in order}, buf1)
+        conv.encode_dict(as_mapping(data1), layout1, buf1)
+        if set(layout1) != set(order):
+            ctx.fail("C10:encode.layout_changed", "encode_dict added %r to the caller's layout" % sorted(map(str, set(layout1) - set(order)))[:4], wit)
     except Exception as e:  # noqa: BLE001
         ctx.fail("C10:encode.raises", "encode_dict raised %s" % type(e).__name__, wit, exc=e)
         return
@@ -241,6 +265,29 @@ def run_layout_case(ctx, conv, R, rng, size, fields, used, values=None, tag="lay
     buf2 = bytearray(prior)
     conv.encode_dict({k: vals[k] for k in order}, {k: check[k] for k in reversed(order)}, buf2)
     ctx.count("encode_calls", 2)
+    # the same layout dictionary used again after its notations were edited in place (a structure relocated by a header of 8 more
+    # bytes): the next encode writes where the notations point now
+    masks = [n for n, f in zip(names, fields) if f[0] == "m" and isinstance(check[n], list)]
+    if masks and len(masks) == len(names) and rng.random() < 0.2:
+        lay = {k: check[k] for k in names}
+        a1, a2 = bytearray(size + 8), bytearray(size + 8)
+        try:
+            conv.encode_dict({k: vals[k] for k in names}, lay, a1)
+            for n in masks:
+                lay[n][1] += 8
+            conv.encode_dict({k: vals[k] for k in names}, lay, a2)
+            back = {}
+            conv.decode_bits(a2, lay, back)
+            for n in masks:
+                lay[n][1] -= 8
+            ctx.count("layouts_edited_in_place")
+            want2 = bytearray(size + 8)
+            for name, f in zip(names, fields):
+                R.put(want2, f[1] + 8, f[2], f[3], vals[name])
+            if bytes(a2) != bytes(want2) or any(back.get(n) != vals[n] for n in names):
+                ctx.fail("C10:encode.layout_edited_in_place", "after the layout's offsets were raised by 8 in place, encode_dict wrote %s, the notations now say %s" % (bytes(a2).hex(), bytes(want2).hex()), wit)
+        except Exception as e:  # noqa: BLE001
+            ctx.fail("C10:encode.raises", "encode with a layout edited in place raised %s" % type(e).__name__, wit, exc=e)
     if buf1 != ref:
         bad = classify(fields, names, buf1, ref, R)
         ctx.fail("C10:encode.%s" % bad, "encode_dict wrote %s, reference %s" % (bytes(buf1).hex(), bytes(ref).hex()), wit)
